@@ -152,8 +152,9 @@ theorem mkNot_eq (a : Term) (ha : TOK a .bool) : Mk.Not a = .ok (notNorm a) ∧ 
         have hx : x.typeOf = some .bool := by
           have := ha.ty
           rw [typeOf_node] at this
+          simp only [List.map_cons, List.map_nil] at this
           cases hxt : x.typeOf with
-          | none => rw [hxt] at this; simp [typeOfNode, allAre] at this
+          | none => rw [hxt] at this; cases this
           | some σ =>
             rw [hxt] at this
             have h2 : typeOfNode .not p ([σ].map some) = some .bool := this
@@ -347,10 +348,10 @@ theorem ag_distinct (a b : TT) (u : Term) (τ : Ty) (ha : TOK (mkNorm a.1) a.2) 
       by_cases hbool : a.2 = .bool
       · have : ((mkNorm a.1).typeOf == some Ty.bool) = true := by rw [ha.ty, hbool]; rfl
         simp only [this, if_true] at hmk
-        simp only [hbool, hmk, h1, List.nil_append, List.append_nil, Mk.And]; rfl
+        simp only [hbool, hmk, h1, List.append_nil, Mk.And]; rfl
       · have : ((mkNorm a.1).typeOf == some Ty.bool) = false := by rw [ha.ty]; simpa using hbool
         simp only [this, Bool.false_eq_true, if_false] at hmk
-        cases h : a.2 <;> first | exact absurd h hbool | (simp only [hmk, h1, List.nil_append, List.append_nil, Mk.And]; rfl)
+        cases h : a.2 <;> first | exact absurd h hbool | (simp only [hmk, h1, List.append_nil, Mk.And]; rfl)
     rw [fixReal_ok hcall]; rfl
   · cases hstd
 
